@@ -193,7 +193,11 @@ class MusepackInfo(StreamInfo):
         if remaining_size < 0:
             raise MusepackHeaderError("SH packet ended unexpectedly.")
 
-        data = fileobj.read(remaining_size)
+        try:
+            data = fileobj.read(remaining_size)
+        except (OverflowError, MemoryError):
+            # read doesn't take sizes like that
+            raise MusepackHeaderError("SH packet ended unexpectedly.")
         if len(data) != remaining_size or len(data) < 2:
             raise MusepackHeaderError("SH packet ended unexpectedly.")
         rate_index = (bytearray(data)[0] >> 5)
@@ -204,7 +208,10 @@ class MusepackInfo(StreamInfo):
         self.channels = (bytearray(data)[1] >> 4) + 1
 
     def __parse_replaygain_packet(self, fileobj, data_size):
-        data = fileobj.read(data_size)
+        try:
+            data = fileobj.read(data_size)
+        except (OverflowError, MemoryError):
+            raise MusepackHeaderError("RG packet ended unexpectedly.")
         if data_size < 9:
             raise MusepackHeaderError("Invalid RG packet size.")
         if len(data) != data_size:
